@@ -24,7 +24,9 @@ RULE = (
     "Distinct by (config signature, k class)."
 )
 ASSUMPTIONS = [
-    "the state dict is round-tripped through torch.save / torch.load (BytesIO); torch.distributed.checkpoint resharding is not exercised",
+    "the state dict is round-tripped through torch.save / torch.load (BytesIO) for every stop step, and through torch.distributed.checkpoint (on-disk format, in-place load into the fresh optimizer's own state dict as documented in the README) for two stop steps per run (quick) / all (thorough), single process; DCP resharding across world sizes is not exercised",
+    "chained resumes (resume at k1, save again at k2 from the resumed optimizer, resume again): 2 (quick) / 8 (thorough) random pairs per run; the second checkpoint must equal the uninterrupted run's checkpoint at k2 key for key and bit for bit",
+    "an exception raised inside torch.distributed.checkpoint itself is counted (dcp_machinery_failed) and never a verdict; an exception from load_distributed_state_dict on the loaded dict is handled like any other",
     "scheduler edits are part of the history: the resumed run receives edits scheduled at steps >= k; earlier edits must arrive through the saved param_groups",
     "bitwise equality is the oracle: both sides execute the same kernels on the same layouts",
 ]
@@ -40,7 +42,7 @@ ANCHORS = {
 
 def gen_cases(tier, seed):
     n = 96 if tier == "quick" else 1500
-    cases = [{"id": f"run{i}", "seed": [seed, i]} for i in range(n)]
+    cases = [{"id": f"run{i}", "seed": [seed, i], "tier": tier} for i in range(n)]
     for i in range(48 if tier == "quick" else 400):
         cases.append({"id": f"ddp{i}", "family": "ddp", "seed": [seed, "ddp", i]})
     return cases
@@ -271,6 +273,12 @@ def run_case(case):
                 o2.load_distributed_state_dict(torch.load(io.BytesIO(blob), weights_only=False), key_to_param=iter(names(ps2)))
                 counters["resumes"] += 1
                 counters["evals"] += 1
+                if k >= 1:
+                    snap = snapshot(o2, ps2, torch, OM)
+                    counters["loaded_state_compared"] = counters.get("loaded_state_compared", 0) + 1
+                    if snap != traj[k - 1]:
+                        bad = next((pa for (pa, ha), (pb, hb) in zip(snap, traj[k - 1]) if pa != pb or ha != hb), "the number of state tensors")
+                        raise Violation(f"resume from step {k}: right after loading, {bad} differs from the uninterrupted run at step {k}", stop_step=k, step=k, tensor=str(bad), **desc)
                 if 0 < k < T and run["presence"][k - 1] != run["presence"][k]:
                     counters["resume_after_mask_change"] += 1
                 for t in range(k, T):
@@ -286,6 +294,94 @@ def run_case(case):
                     for (pa, ha), (_, hb) in zip(snap, ref):
                         if ha != hb:
                             raise Violation(f"resume from step {k}: {pa} at step {t + 1} differs from the uninterrupted run", stop_step=k, step=t + 1, tensor=[str(x) for x in pa], **desc)
+            thorough = case.get("tier") == "thorough"
+            rx = rng_for(*case["seed"], "extra")
+
+            def continue_and_compare(o, ps, k, what):
+                if k >= 1:  # zero steps of continuation: the loaded state is the state the uninterrupted run had at k
+                    snap = snapshot(o, ps, torch, OM)
+                    counters["loaded_state_compared"] = counters.get("loaded_state_compared", 0) + 1
+                    if [a for a, _ in snap] != [a for a, _ in traj[k - 1]]:
+                        raise Violation(f"{what}: right after loading, the set of state tensors differs from the uninterrupted run at step {k}", stop_step=k, step=k, **desc)
+                    for (pa, ha), (_, hb) in zip(snap, traj[k - 1]):
+                        if ha != hb:
+                            raise Violation(f"{what}: right after loading, {pa} differs from the uninterrupted run at step {k}", stop_step=k, step=k, tensor=[str(x) for x in pa], **desc)
+                for t in range(k, T):
+                    apply_edits(o, t)
+                    _set_grads(torch, G, ps, run, stream, t)
+                    o.step()
+                    snap = snapshot(o, ps, torch, OM)
+                    ref = traj[t]
+                    counters["tensors_compared"] += len(ref)
+                    if [a for a, _ in snap] != [a for a, _ in ref]:
+                        raise Violation(f"{what}: the set of state tensors at step {t + 1} differs from the uninterrupted run", stop_step=k, step=t + 1, **desc)
+                    for (pa, ha), (_, hb) in zip(snap, ref):
+                        if ha != hb:
+                            raise Violation(f"{what}: {pa} at step {t + 1} differs from the uninterrupted run", stop_step=k, step=t + 1, tensor=[str(x) for x in pa], **desc)
+
+            # --- chained resumes: the checkpoint written by a RESUMED optimizer at k2 must equal the one the uninterrupted run wrote
+            # at k2 (keys, tensors, param_groups) and must itself resume the trajectory
+            pairs = [(a, b) for a in range(T + 1) for b in range(a + 1, T + 1)]
+            rx.shuffle(pairs)
+            for k1, k2 in pairs[: 8 if thorough else 2]:
+                blob, vals = saved[k1]
+                ps2, o2 = fresh(vals)
+                o2.load_distributed_state_dict(torch.load(io.BytesIO(blob), weights_only=False), key_to_param=iter(names(ps2)))
+                for t in range(k1, k2):
+                    apply_edits(o2, t)
+                    _set_grads(torch, G, ps2, run, stream, t)
+                    o2.step()
+                sd_res = o2.distributed_state_dict(key_to_param=iter(names(ps2)))
+                sd_ref = torch.load(io.BytesIO(saved[k2][0]), weights_only=False)
+                counters["chained_resumes"] = counters.get("chained_resumes", 0) + 1
+                counters["evals"] += 1
+                if sorted(sd_res["state"]) != sorted(sd_ref["state"]) or any(sorted(sd_res["state"][p_]) != sorted(sd_ref["state"][p_]) for p_ in sd_ref["state"]):
+                    raise Violation(f"resumed at {k1}, saved again at {k2}: the second checkpoint's keys differ from the uninterrupted run's checkpoint at {k2}", stop_step=k1, second_stop=k2, **desc)
+                for p_ in sd_ref["state"]:
+                    for fk, v_ref in sd_ref["state"][p_].items():
+                        if sha(sd_res["state"][p_][fk]) != sha(v_ref):
+                            raise Violation(f"resumed at {k1}, saved again at {k2}: {p_} {fk} in the second checkpoint differs from the uninterrupted run's checkpoint at {k2}", stop_step=k1, second_stop=k2, **desc)
+                if repr(sd_res["param_groups"]) != repr(sd_ref["param_groups"]):
+                    raise Violation(f"resumed at {k1}, saved again at {k2}: param_groups of the second checkpoint differ from the uninterrupted run's", stop_step=k1, second_stop=k2, got=repr(sd_res["param_groups"])[:600], want=repr(sd_ref["param_groups"])[:600], **desc)
+                b2 = io.BytesIO()
+                torch.save(sd_res, b2)
+                ps3, o3 = fresh([p.detach().clone() for p in ps2])
+                o3.load_distributed_state_dict(torch.load(io.BytesIO(b2.getvalue()), weights_only=False), key_to_param=iter(names(ps3)))
+                continue_and_compare(o3, ps3, k2, f"resumed at {k1}, saved again at {k2}, resumed again")
+
+            # --- the documented torch.distributed.checkpoint flow: on-disk format, then an IN-PLACE load into the fresh optimizer's own
+            # state dict (its tensors alias the optimizer's state), then load_distributed_state_dict of that same dict
+            ks = list(range(T + 1))
+            rx.shuffle(ks)
+            for k in ks if thorough else ks[:2]:
+                blob, vals = saved[k]
+                import shutil
+                import tempfile
+                import warnings
+
+                d_ = tempfile.mkdtemp(prefix="vf_c09_dcp_")
+                try:
+                    ps2, o2 = fresh(vals)
+                    try:
+                        with warnings.catch_warnings():
+                            warnings.simplefilter("ignore")
+                            import torch.distributed.checkpoint as dcp
+
+                            dcp.save({"optim": torch.load(io.BytesIO(blob), weights_only=False)}, checkpoint_id=d_)
+                            tmpl = {"optim": o2.distributed_state_dict(key_to_param=iter(names(ps2)))}
+                            dcp.load(tmpl, checkpoint_id=d_)
+                    except Exception as e:  # noqa  third-party machinery: counted, never a verdict
+                        counters["dcp_machinery_failed"] = counters.get("dcp_machinery_failed", 0) + 1
+                        counters.setdefault("dcp_failure_sample", 0)
+                        run.setdefault("_dcp_err", f"{type(e).__name__}: {str(e)[:200]}")
+                        continue
+                    o2.load_distributed_state_dict(tmpl["optim"], key_to_param=iter(names(ps2)))
+                    counters["dcp_resumes"] = counters.get("dcp_resumes", 0) + 1
+                    counters["evals"] += 1
+                    continue_and_compare(o2, ps2, k, f"torch.distributed.checkpoint save, in-place load into the fresh optimizer's state dict, resume from step {k}")
+                finally:
+                    shutil.rmtree(d_, ignore_errors=True)
+
             # --- negative loads on the final checkpoint
             blob, vals = saved[rng_for(*case["seed"], "neg").randrange(1, T + 1)]
 
@@ -362,6 +458,6 @@ def run_case(case):
 
 
 def conclusive(agg, results, tier):
-    need = {"resumes": 500, "steps_after_resume": 2000, "negative_loads": 1000, "resume_after_mask_change": 50, "key_uniqueness_checked": 500, "ddp_resumes": 50, "ddp_dtensor_leaves_saved": 100}
+    need = {"chained_resumes": 100, "dcp_resumes": 100, "loaded_state_compared": 500, "resumes": 500, "steps_after_resume": 2000, "negative_loads": 1000, "resume_after_mask_change": 50, "key_uniqueness_checked": 500, "ddp_resumes": 50, "ddp_dtensor_leaves_saved": 100}
     low = {k: agg.get(k, 0) for k in need if agg.get(k, 0) < need[k]}
     return f"too few observations: {low}" if low else None
